@@ -829,6 +829,42 @@ pub fn c19(tier: Tier) -> i32 {
                 case: json!({"kind": "routes", "expression": e.text, "route": "partition"}),
             });
         }
+        // the partitioned glob displayed and rebuilt: wherever both match a path, the same captures
+        // (the partitioned glob is compiled from a transformed token tree, the rebuilt one from
+        // text; what they match where they differ is C08's business)
+        if let (_, Some(post)) = &pb {
+            let ptext = post.to_string();
+            if let Some(rebuilt) = model::build_ok(&ptext) {
+                if let Ok(pdfa) = model::dfa_of_glob(post) {
+                    if let Ok(alpha) = automata::alphabet(&[pdfa.pattern.as_str()], &[]) {
+                        let mut named = vec![];
+                        named_chars(&e.ast, &mut named);
+                        let alpha = thin(&alpha, &named, 4);
+                        let k = post.captures().count().max(rebuilt.captures().count());
+                        let mut done = false;
+                        bump(c, "routes", 1);
+                        live_paths(&pdfa, &alpha, l.min(4), 400, &mut |path, _| {
+                            if done {
+                                return;
+                            }
+                            let a = captured(&|c| post.matched(c).map(|m| all_captures(&m, k)), path);
+                            let b = captured(&|c| rebuilt.matched(c).map(|m| all_captures(&m, k)), path);
+                            if let (Some(a), Some(b)) = (&a, &b) {
+                                if a != b {
+                                    done = true;
+                                    rep.alarm(Alarm {
+                                        class: None,
+                                        key: format!("partition display {}", e.text),
+                                        msg: format!("`{}`: its partitioned glob displays as `{}`; on {:?} the partitioned glob captures {:?} but the glob built from that text captures {:?}", e.text, ptext, path, a, b),
+                                        case: json!({"kind": "routes", "expression": e.text, "route": "partition display", "path": path}),
+                                    });
+                                }
+                            }
+                        });
+                    }
+                }
+            }
+        }
         // matched text on every live path, every index, owned vs borrowed, every route
         let Ok(dfa) = model::dfa_of_glob(g) else { return };
         let Ok(alphabet) = automata::alphabet(&[dfa.pattern.as_str()], &[]) else { return };
